@@ -141,6 +141,21 @@ fn find_src<'a>(sources: &'a [Src], case: &J) -> Option<(usize, &'a Src)> {
 /// Adds text/locs (unless the case already carries `text`), per-stanza matches, the merged order and
 /// regex tables.  Sets `skip` (with a reason) when the oracle cannot serve the case.
 pub fn prepare(case: &mut J, sources: &[Src], layout_rng: Option<Rng>) {
+    if case.get("next").is_some() {
+        let mut next = case["next"].take();
+        if next.get("src").is_none() {
+            next["src"] = case["src"].clone();
+        }
+        prepare(&mut next, sources, layout_rng.clone());
+        if let Some(sk) = next.get("skip") {
+            case["skip"] = sk.clone();
+        }
+        case["next"] = next;
+    }
+    prepare_one(case, sources, layout_rng)
+}
+
+fn prepare_one(case: &mut J, sources: &[Src], layout_rng: Option<Rng>) {
     let (si, src) = match find_src(sources, case) {
         Some(x) => x,
         None => {
@@ -228,12 +243,25 @@ pub fn prepare(case: &mut J, sources: &[Src], layout_rng: Option<Rng>) {
     }
 }
 
-/// Executes one prepared case against the real library; fills `events` and `outcome`.
+/// Executes one prepared case (and the chain of `next` runs, all into the same graph) against the
+/// real library; fills `events` and `outcome` of every run.
 pub fn run(case: &mut J, sources: &[Src]) {
     if case.get("skip").is_some() {
         return;
     }
     let (_, src) = find_src(sources, case).expect("source");
+    let mut graph = tree_sitter_graph::graph::Graph::new();
+    let mut cur: &mut J = case;
+    loop {
+        run_one(cur, src, &mut graph);
+        if cur.get("next").is_none() {
+            break;
+        }
+        cur = cur.get_mut("next").unwrap();
+    }
+}
+
+fn run_one<'tree>(case: &mut J, src: &'tree Src, graph: &mut tree_sitter_graph::graph::Graph<'tree>) {
     let text = case["text"].as_str().unwrap().to_string();
     let loaded = std::panic::catch_unwind(|| exec::load(&text));
     let file = match loaded {
@@ -249,13 +277,35 @@ pub fn run(case: &mut J, sources: &[Src]) {
         }
         Ok(Ok(f)) => f,
     };
-    let globals = match exec::globals_from_json(&case["globals"]) {
+    // globals: optionally split over a parent set and a nested set ("globals_outer" = names kept in the parent)
+    let outer_names: Vec<String> = case["globals_outer"]
+        .as_array()
+        .map(|a| a.iter().filter_map(|x| x.as_str().map(|s| s.to_string())).collect())
+        .unwrap_or_default();
+    let mut outer_json = serde_json::Map::new();
+    let mut inner_json = serde_json::Map::new();
+    if let Some(m) = case["globals"].as_object() {
+        for (k, v) in m {
+            if outer_names.contains(k) {
+                outer_json.insert(k.clone(), v.clone());
+            } else {
+                inner_json.insert(k.clone(), v.clone());
+            }
+        }
+    }
+    let outer = match exec::globals_from_json(&J::Object(outer_json), graph) {
         Ok(g) => g,
         Err(e) => {
             case["skip"] = json!(e);
             return;
         }
     };
+    let mut globals = tree_sitter_graph::Variables::nested(&outer);
+    if let Err(e) = exec::globals_add_json(&mut globals, &J::Object(inner_json), graph) {
+        case["skip"] = json!(e);
+        return;
+    }
+    let before = exec::globals_snapshot(&globals, &outer, graph, src);
     let dbg_on = case["dbg"]["on"].as_bool().unwrap_or(false);
     let (l, v, m) = (
         case["dbg"]["loc"].as_str().unwrap_or("dbg_loc").to_string(),
@@ -267,8 +317,12 @@ pub fn run(case: &mut J, sources: &[Src]) {
         dbg: if dbg_on { Some((&l, &v, &m)) } else { None },
         cancel_at: case["cancel_at"].as_u64().unwrap_or(0) as usize,
     };
-    let mut graph = tree_sitter_graph::graph::Graph::new();
-    let (events, outcome) = exec::execute_into(&file, &mut graph, src, &globals, &cfg, &text);
+    let (events, mut outcome) = exec::execute_into(&file, graph, src, &globals, &cfg, &text);
+    let after = exec::globals_snapshot(&globals, &outer, graph, src);
+    outcome["globals_unchanged"] = json!(before == after);
+    if case["visit"].as_bool().unwrap_or(false) {
+        outcome["visits"] = exec::visit_all(&file, src);
+    }
     case["events"] = json!(events);
     case["outcome"] = outcome;
 }
